@@ -162,7 +162,8 @@ def run(ck):
                 return False
             if ev.base_callee() == "std::function::operator()":
                 rv = ev.get("recv") or {}
-                return rv.get("v") == "onDone" or strip_tmpl(rv.get("f") or "").endswith("RequestEntry::onDone")
+                copies = {d["var"] for d in ev.func.events("decl") if strip_tmpl((d.get("init") or {}).get("f") or "").endswith("RequestEntry::onDone")}
+                return rv.get("v") in copies or strip_tmpl(rv.get("f") or "").endswith("RequestEntry::onDone")
             return False
 
         def is_timer_release(ev):
@@ -258,7 +259,8 @@ def run(ck):
     def extra(ev):
         if ev["k"] == "call" and ev.base_callee() == "std::function::operator()":
             rv = ev.get("recv") or {}
-            if rv.get("v") == "onDone" or strip_tmpl(rv.get("f") or "").endswith("onDone"):
+            copies = {d["var"] for d in ev.func.events("decl") if strip_tmpl((d.get("init") or {}).get("f") or "").endswith("RequestEntry::onDone")}
+            if rv.get("v") in copies or strip_tmpl(rv.get("f") or "").endswith("RequestEntry::onDone"):
                 return [lf for _fn, _e, lf in lam_sites]
         return []
     nlocked = 0
